@@ -46,7 +46,8 @@ fn id_chars() -> &'static [char] {
                 v.push(c as char);
             }
         }
-        v.extend(['é', 'ß', '中', '😀', '\u{7f}', '\u{200b}', 'ı', '\u{301}']);
+        // 'à' 'Å' '†': the last UTF-8 byte (A0, 85) read as Latin-1 is white space
+        v.extend(['é', 'ß', '中', '😀', '\u{7f}', '\u{200b}', 'ı', '\u{301}', 'à', 'Å', '†']);
         v
     })
 }
@@ -62,7 +63,7 @@ fn desc_chars() -> &'static [char] {
                 v.push(c as char);
             }
         }
-        v.extend(['é', '中', '😀', '\u{a0}', '\u{3000}', '\u{1}', '\u{1b}', '\u{7f}', '\u{2003}', '\u{feff}']);
+        v.extend(['é', '中', '😀', '\u{a0}', '\u{3000}', '\u{1}', '\u{1b}', '\u{7f}', '\u{2003}', '\u{feff}', 'à', 'Å', '†']);
         v
     })
 }
@@ -1790,6 +1791,23 @@ fn fx_garbage(w: &W) -> Verdict {
             }
             w.fired("corrupt");
         }
+    }
+    if w.chance(1, 40) {
+        // a long run of one structural byte (thousands of blank lines, of '>' or of '@'): code
+        // that recurses, or grows a buffer, once per skipped byte or line
+        let n = match w.draw(8) {
+            0 => 1usize << 20,
+            1 | 2 => 4096 + w.draw(8192) as usize,
+            _ => 70_000,
+        };
+        let b = *w.pick(b"\n \r>@+\tA");
+        let at = match w.draw(3) {
+            0 => 0,
+            1 => bytes.len(),
+            _ => w.draw(bytes.len() as u64 + 1) as usize,
+        };
+        bytes.splice(at..at, std::iter::repeat(b).take(n));
+        w.probe("garbage_with_long_run_of_one_byte");
     }
     if !bytes.is_empty() {
         w.probe("workload_nonempty");
